@@ -99,6 +99,13 @@ def random_model(r):
             body.append(['label', r.choice(labels)])
         elif c < 0.93:
             body.append(['return', ['var', 'x']] if r.random() < 0.7 else ['return', None])
+            if r.random() < 0.12:
+                # a jump condition / return value / expression statement is computed by SCRIPT rules: the names of the expression built-ins
+                # (len, abs, max ...) are not functions there - `Undefined function`
+                alias = r.choice(['len', 'abs', 'max', 'round', 'now'])
+                e = ['call', alias, [['var', 'x']]]
+                body[-1] = r.choice([['return', e], ['jump', r.choice(labels), e], ['expr', 'y', e],
+                                     ['jump', r.choice(labels), ['bin', '<', e, num(2)]]])
         elif c < 0.97:
             body.append(['expr', 'y', ['call', r.choice(['ff', 'gg', 'hh2']), [['var', 'x']]]])
         else:
